@@ -115,8 +115,12 @@ def _analyse(bodies, res_m1, res_m2, summaries):
 
 
 def rule_m4(F):
-    """Index parameters of RawList accessors are range-checked against len before any address is computed."""
+    """Index parameters of RawList accessors are range-checked against len before any address is computed. Decided by evaluating
+    the boolean part of the function's MIR for every outcome of its index/len comparisons (so `a || b`, stored flags, `max(i, j)`
+    and early returns in any arrangement are all understood): no address computation involving an index may be reachable when that
+    index is out of range."""
     from ..report import RuleResult as RR
+    import itertools
     r = RR("C15.M4", "out-of-range get/swap: every element address is computed only after `idx < len` held on that path (and swap excludes i == j)", floor=3)
     for fn in ("value::list::RawList::get", "value::list::RawList::swap"):
         b = F.body(fn)
@@ -124,67 +128,102 @@ def rule_m4(F):
             r.missing(fn)
             continue
         defs = mir.Defs(b)
-        dom = mir.dominators(b)
         locs = b.mir["locals"]
         argc = b.mir["argc"]
         idx_params = [i for i in range(2, argc + 1) if locs[i]["ty"] == "usize"]
+
+        def side(o):
+            """('idx', {P..}, 'max'|'min'|None) / ('len',) / None"""
+            if not mir.is_place_op(o):
+                return None
+            k = mir.origin_key(b, defs, o[1])
+            if k.startswith("arg") and k[3:].isdigit() and int(k[3:]) in idx_params:
+                return ("idx", {int(k[3:])}, None)
+            if "len" in k.split(".")[-1] or k.endswith(".len") or "::len" in k:
+                return ("len",)
+            if k.startswith("call:") and k.split("::")[-1].split(".")[0] in ("max", "min"):
+                for d in defs.whole_defs(o[1][0]):
+                    if d[2] == "call":
+                        ps = set()
+                        for x in d[3]["args"]:
+                            if mir.is_place_op(x):
+                                kk = mir.origin_key(b, defs, x[1])
+                                if kk.startswith("arg") and kk[3:].isdigit() and int(kk[3:]) in idx_params:
+                                    ps.add(int(kk[3:]))
+                        if ps:
+                            return ("idx", ps, k.split("::")[-1].split(".")[0])
+            return None
+        atoms = []   # (bb, si, op, idx side first?, params, agg)
+        for bi, blk in enumerate(b.blocks):
+            for si, st in enumerate(blk["stmts"]):
+                if st["k"] == "assign" and st["rv"]["k"] == "bin" and st["rv"]["op"] in ("Ge", "Lt", "Gt", "Le"):
+                    sa, sc = side(st["rv"]["a"]), side(st["rv"]["b"])
+                    if sa and sc and {sa[0], sc[0]} == {"idx", "len"}:
+                        op = st["rv"]["op"]
+                        if sa[0] == "len":
+                            op = {"Ge": "Le", "Le": "Ge", "Gt": "Lt", "Lt": "Gt"}[op]
+                            sa = sc
+                        atoms.append((bi, si, op, sa[1], sa[2]))
+        # address computations per index
+        uses = {P: [] for P in idx_params}
+        for bi, t in mir.calls(b):
+            nm = mir.callee_def(t).rsplit("::", 1)[-1]
+            if nm not in ("offset_of", "byte_add", "add", "byte_offset", "offset"):
+                continue
+            for a in t["args"][1:]:
+                if not mir.is_place_op(a):
+                    continue
+                seen, work = set(), [a[1][0]]
+                while work:
+                    l = work.pop()
+                    if l in seen:
+                        continue
+                    seen.add(l)
+                    if l in uses:
+                        uses[l].append(bi)
+                    for d in defs.defs.get(l, []):
+                        if d[2] == "call":
+                            work += [x[1][0] for x in d[3]["args"] if mir.is_place_op(x)]
+                        elif d[2] == "assign":
+                            rv = d[3]["rv"]
+                            for k in ("o", "a", "b"):
+                                if k in rv and mir.is_place_op(rv[k]):
+                                    work.append(rv[k][1][0])
         for P in idx_params:
             pname = locs[P].get("name") or "arg%d" % P
-            # comparisons P >= self.len / P < self.len
-            guards = []
-            for bi, blk in enumerate(b.blocks):
-                for st in blk["stmts"]:
-                    if st["k"] == "assign" and st["rv"]["k"] == "bin" and st["rv"]["op"] in ("Ge", "Lt", "Gt", "Le"):
-                        a, c = st["rv"]["a"], st["rv"]["b"]
-                        if mir.is_place_op(a) and mir.origin_key(b, defs, a[1]) == "arg%d" % P and mir.is_place_op(c) and "len" in mir.origin_key(b, defs, c[1]):
-                            guards.append((st["rv"]["op"], bi, st["p"][0]))
-            inrange = []
-            for (op, bi, res) in guards:
-                t = b.blocks[bi]["term"]
-                if t["k"] != "switch" or not mir.is_place_op(t["o"]) or t["o"][1][0] != res:
-                    continue
-                if op == "Ge":
-                    inrange += [x[1] for x in t["targets"] if x[0] == 0]
-                elif op == "Lt":
-                    inrange.append(t["otherwise"])
-            uses = []
-            for bi, t in mir.calls(b):
-                nm = hir.last(mir.callee_def(t)) if False else mir.callee_def(t).rsplit("::", 1)[-1]
-                if nm in ("offset_of", "byte_add", "add", "byte_offset", "offset"):
-                    for a in t["args"][1:]:
-                        if mir.is_place_op(a):
-                            # does the argument derive from P?
-                            seen = set()
-                            work = [a[1][0]]
-                            hit = False
-                            while work:
-                                l = work.pop()
-                                if l in seen:
-                                    continue
-                                seen.add(l)
-                                if l == P:
-                                    hit = True
-                                    break
-                                for d in defs.defs.get(l, []):
-                                    if d[2] == "call":
-                                        work += [x[1][0] for x in d[3]["args"] if mir.is_place_op(x)]
-                                    elif d[2] == "assign":
-                                        rv = d[3]["rv"]
-                                        for k in ("o", "a", "b"):
-                                            if k in rv and mir.is_place_op(rv[k]):
-                                                work.append(rv[k][1][0])
-                            if hit:
-                                uses.append(bi)
             key = "%s(%s)" % (fn.rsplit("::", 1)[-1], pname)
-            r.inst(key, {"fn": fn, "index": pname, "guards": [(g[0], g[1]) for g in guards], "address_computations": sorted(set(uses))})
-            if not uses:
+            us = sorted(set(uses[P]))
+            r.inst(key, {"fn": fn, "index": pname, "comparisons_with_len": len(atoms), "address_computations": us})
+            if not us:
                 continue
-            bad_ops = [g[0] for g in guards if g[0] in ("Gt", "Le")]
-            ok = bool(inrange) and all(any(g in dom[u] for g in inrange) for u in uses)
-            if not ok:
+            # every combination of "which indices are out of range" with P out of range
+            bad_case = None
+            weak = [a for a in atoms if a[2] in ("Gt", "Le")]
+            for combo in itertools.product([False, True], repeat=len(idx_params)):
+                oor = dict(zip(idx_params, combo))
+                if not oor[P]:
+                    continue
+                av = {}
+                for (bi, si, op, ps, agg) in atoms:
+                    vals = [oor[q] for q in ps]
+                    out_of_range = (any(vals) if agg in (None, "max") else all(vals)) if agg != "min" else all(vals)
+                    # op is written as `idx OP len`: Ge means out of range; Lt means in range; Gt/Le are off by one (idx == len slips through)
+                    if op == "Ge":
+                        av[(bi, si)] = out_of_range
+                    elif op == "Lt":
+                        av[(bi, si)] = not out_of_range
+                    elif op == "Gt":
+                        av[(bi, si)] = False if out_of_range else False   # idx == len is out of range but `idx > len` is false
+                    elif op == "Le":
+                        av[(bi, si)] = True
+                reach = mir.bool_sim(b, av)
+                if any(u in reach for u in us):
+                    bad_case = {locs[q].get("name") or "arg%d" % q: ("out of range" if v else "in range") for q, v in oor.items()}
+                    break
+            if bad_case:
                 r.bad(fn, key, relfile(b.file), b.line,
-                      "an element address is computed from `%s` on a path where `%s < len` has not been established%s: an out-of-range index reads or swaps memory outside the list instead of returning None / doing nothing"
-                      % (pname, pname, " (the comparison is %s, which lets %s == len through)" % (bad_ops[0], pname) if bad_ops else ""))
+                      "an element address is computed from `%s` on a path where `%s < len` has not been established (case %s)%s: an out-of-range index reads or swaps memory outside the list instead of returning None / doing nothing"
+                      % (pname, pname, bad_case, " (a comparison uses > / <=, which lets index == len through)" if weak else ""))
     sb = F.body("value::list::RawList::swap")
     if sb is not None and sb.mir:
         defs = mir.Defs(sb)
